@@ -238,7 +238,8 @@ def generate(run_seed: int, tier: str = 'quick', stream: str = 'seq') -> dict:
         'property': PROP,
         'run_seed': run_seed,
         'stream': stream,
-        'config': {'fault_free': fault_free, 'write_faults': wf, 'read_faults': rf, 'damage_kinds': dk, 'p_fault': p_fault},
+        'config': {'fault_free': fault_free, 'write_faults': wf, 'read_faults': rf, 'damage_kinds': dk, 'p_fault': p_fault,
+                   'paths_as': rng.pick(['str', 'str', 'Path'])},
         'world': {'datasets': datasets},
         'ops': ops,
     }
@@ -281,6 +282,10 @@ class Run:
         d = self.datasets[ds]
         argset = worlds.ARGSETS[d['fmt']][args_idx]
         name, kw = worlds.loader_call(d['fmt'], dirpath, argset, cache)
+        if self.sc.get('config', {}).get('paths_as') == 'Path':
+            from pathlib import Path
+
+            kw = {k: (Path(v) if k in ('coords_file', 'data_file', 'xml_file', 'topology_file', 'cache') and isinstance(v, str) else v) for k, v in kw.items()}
         return getattr(Trajectory, name)(**kw)
 
     def ref(self, ds: int, args_idx: int) -> dict:
